@@ -33,7 +33,7 @@ ERRNOS = ["EACCES", "EPERM", "EROFS", "ENOSPC", "EIO", "ENAMETOOLONG", "EEXIST",
 
 
 def examples(tier):
-    return 260 if tier == "quick" else 12000
+    return 260 if tier == "quick" else 4000
 
 
 @st.composite
